@@ -75,7 +75,7 @@ func genC18(r *gen.Rand) *C18Case {
 	input := "in.yaml"
 	vectors := []string{"parent-dotdot", "parent-absolute", "parent-wildcard", "parent-list", "symlink-relative", "symlink-absolute",
 		"symlink-chain", "dir-symlink", "symlink-name-parent", "input-dotdot", "virtual-ext", "parent-dotdot-sub",
-		"symlink-hops", "symlink-hops", "symlink-via-dirlink", "setroot-sibling-prefix", "setroot-through-dirlink", "parent-wildcard-dir", "preread-then-narrow"}
+		"symlink-hops", "symlink-hops", "symlink-via-dirlink", "setroot-sibling-prefix", "setroot-through-dirlink", "parent-wildcard-dir", "preread-then-narrow", "parent-wildcard-mixed"}
 	c.Vector = gen.PickAny(r, vectors)
 	target := func(outside, inside string) string {
 		if c.Benign {
@@ -205,6 +205,24 @@ func genC18(r *gen.Rand) *C18Case {
 		if c.Benign {
 			put(c18Root+"/sub2/s.yaml", map[string]any{"s2": 1})
 		}
+	case "parent-wildcard-mixed":
+		// one $parent value expanding to several files: a regular layer
+		// inside the root and a link that leaves it (or, benign, stays inside)
+		name, pat := "bax.yaml", "ba*"
+		switch r.Intn(3) {
+		case 0:
+			name, pat = "base.json", "base" // same layer name under two extensions
+		case 1:
+			name, pat = "sub/t.yaml", "sub/?"
+		}
+		up := strings.Repeat("../", strings.Count(name, "/"))
+		lt := target(up+"../outside/d.yaml", up+"sub/s.yaml")
+		if r.Chance(0.3) {
+			lt = target(abs(c18Outside+"/d.yaml"), abs(c18Root+"/sub/s.yaml"))
+		}
+		w.Links = append(w.Links, procsim.Link{Path: c18Root + "/" + name, Target: lt})
+		in["$parent"] = pat
+		c.NeedsOutside = !c.Benign
 	case "dir-symlink":
 		w.Links = append(w.Links, procsim.Link{Path: c18Root + "/dl", Target: target("../outside", "sub")})
 		in["$parent"] = target("dl/d", "dl/s")
